@@ -474,6 +474,53 @@ PROPS["C17"] = {
     ],
 }
 
+# ---- C06 (units charincl, bricks, round 3) ------------------------------------------------------------------------
+TWINS["charincl"] = [("CharacterInclusionDomain::merge", "c06.ci_merge"), ("CharacterInclusionDomain::append_string_domain", "c06.ci_append"),
+                     ("CharacterSet", "c06.ci_merge"), ("CharacterInclusionDomain", "c06.ci_append")]
+TWINS["bricks"] = [("BricksDomain::normalize", "c06.br_normalize"), ("BricksDomain::merge", "c06.br_merge"), ("BricksDomain::widen", "c06.br_widen"),
+                   ("BricksDomain::pad_list", "c06.br_widen"), ("BricksDomain::append_string_domain", "c06.br_append"), ("BrickDomain::", "c06.br_brick"),
+                   ("Brick::", "c06.br_normalize"), ("BricksDomain", "c06.br_loop")]
+PROPS["C06"] = {
+    "units": ["charincl", "bricks"],
+    "level_text": (
+        "CharacterInclusionDomain::{merge, append_string_domain, From<String>, the constructors} and CharacterSet::{union, intersection, ..} of "
+        "character_inclusion.rs, and BricksDomain::{pad_list, widen, merge, append_string_domain, normalize}, BrickDomain::{widen, merge} and the brick "
+        "transforms of bricks/brick.rs (rules 1, 3, 4, 5, generate_permutations_of_fixed_length) are extracted verbatim from /repo on each run and verified by "
+        "Verus against a concretisation written from the module documentation and Costantini et al. (character inclusion: certain <= chars(s) <= possible; "
+        "bricks: concatenation of one member of each brick, a brick = between min and max strings of its set), for every value -- any number of bricks, any "
+        "strings, any bounds: gamma(a) u gamma(b) <= gamma(merge(a, b)); s in gamma(a), t in gamma(b) ==> s + t in gamma(append(a, b)); gamma(normalize(x)) == "
+        "gamma(x) (both inclusions); normalize terminates (measure: bricks outside the normal form Top / {1,1} / {0,max} weigh 3, others 1; every rule "
+        "application decreases the sum). No enumeration, no bound on alphabet, sequence length or repetition bounds."),
+    "level_note": (
+        "On the pinned tree the brick clauses could NOT be claimed: normalize / merge did not terminate on inputs reachable through the public API and rule 4's u32 "
+        "sums overflowed (unsound in release builds) -- both repaired (fix: 8a58ccd, known_findings.txt); the proof is for the repaired text and has no arithmetic "
+        "precondition left (rule 4's sums are discharged from its guard). Preconditions: min <= max for BrickDomain::widen and BricksDomain::widen / merge (u32 "
+        "subtraction in the threshold test); non-Top operands where the code calls unwrap_value (documented). Trusted: rule 2 (Brick::merge_bricks_with_bound_one) "
+        "by a contract taken from its doc comment (@nobody; the bounded twin c06.br_normalize checks it), BricksDomain::is_less_or_equal / all_bricks_are_top "
+        "assumed to return (widen is proved sound whatever they answer), hypothesis obeys_cmp::<String>(), shim/charincl.rs (3 collect chains as set operations), "
+        "shim/bricks.rs (4 items + u32 min/max), 10 restated derives, the R9 substitutions listed in the units (for-with-continue -> while; zip loop -> index loop; "
+        "collect chains; set ==), R5 (a panic diverges). Observation, not repaired: CharacterInclusionDomain::merge panics when a certain set is CharacterSet::Top "
+        "(reachable only through deserialisation)."),
+    "design_ref": "DESIGN.md section 13 (C06)",
+    "default_twins": ["c06.ci_merge", "c06.ci_append", "c06.br_brick", "c06.br_append", "c06.br_widen", "c06.br_normalize", "c06.br_merge"],
+    "sweep_twins": ["c06.ci_merge", "c06.ci_append", "c06.br_brick", "c06.br_append", "c06.br_widen", "c06.br_normalize", "c06.br_merge", "c06.br_loop"],
+    "not_covered": [
+        "body of Brick::merge_bricks_with_bound_one (rule 2): trusted contract, bounded twin",
+        "BrickDomain / BricksDomain::is_less_or_equal, all_bricks_are_top (the partial order)",
+        "create_float / create_integer / create_char placeholder domains, Display impls",
+        "whether widen enforces a finite ascending chain",
+    ],
+    "assumptions": [
+        "HYPOTHESIS vstd::laws_cmp::obeys_cmp::<String>()",
+        "shim/charincl.rs: intersection / union / chars collect chains as set operations (std documentation)",
+        "shim/bricks.rs: verif_br_union_collect, verif_br_concat (String + &String), verif_br_vec_to_set, verif_br_set_eq; u32 min / max restated and verified",
+        "@nobody: Brick::merge_bricks_with_bound_one (contract from its doc comment), BricksDomain::is_less_or_equal, all_bricks_are_top (no postcondition)",
+        "restated derives (PartialEq / Eq / Clone) of CharacterSet, CharacterInclusionDomain, Brick, BrickDomain, BricksDomain",
+        "R9 substitutions listed in the unit headers; R5 (panic = divergence); vstd specifications of BTreeSet, Vec, String, u32::checked_add",
+        "64-bit target (usize = u64)",
+    ],
+}
+
 
 def twin_for(unit, label):
     for frag, twin in TWINS.get(unit, []):
